@@ -92,6 +92,13 @@ Theorem C09_connection_rows : forall sc, Forall (row_from sc) (Oracles.outs (run
 Proof. exact rows_come_from_handlers. Qed.
 Print Assumptions C09_connection_rows.
 
+(* ... and every RowDescription of the connection describes, in order and one field per column, the columns of a
+   configured statement under some result-format list: a DataRow and the RowDescription of its statement always
+   have the same number of fields *)
+Theorem C09_connection_rowdescs : forall sc, Forall (desc_from sc) (Oracles.outs (run_case sc)).
+Proof. exact rowdescs_come_from_statements. Qed.
+Print Assumptions C09_connection_rowdescs.
+
 Definition ex_rows_case : scase :=
   {| sc_limit := 0; sc_auth := None; sc_params := []; sc_version := []; sc_tls := false; sc_mws := [];
      sc_term := None;
